@@ -208,5 +208,15 @@ func LocalLoadValue(u *ssa.UnOp) ssa.Value {
 		}
 		// a call that receives the cell's address could store to it
 	}
+	// nothing stored in this block so far: what the only way into the block left in the cell
+	// (`*err = call(); if *err != nil { return *err }`)
+	for hops := 0; hops < 4 && len(b.Preds) == 1 && b.Preds[0] != b; hops++ {
+		b = b.Preds[0]
+		for i := len(b.Instrs) - 1; i >= 0; i-- {
+			if st, ok := b.Instrs[i].(*ssa.Store); ok && st.Addr == ssa.Value(al) {
+				return st.Val
+			}
+		}
+	}
 	return nil
 }
